@@ -115,5 +115,14 @@ def strengthen(hyps, goal, max_inst=200):
                         for u in terms[:8]:
                             b2 = z3.substitute_vars(inner.body(), u)
                             extra.append(z3.Implies(inst.arg(0), b2) if z3.is_implies(inst) else b2)
+    # second round: index terms that only appear in the first-round instances (witness positions)
+    if terms:
+        terms2 = [t for t in _index_terms(extra, limit=10) if all(not z3.eq(t, u) for u in terms)]
+        for h in hyps:
+            if len(extra) >= max_inst or not terms2:
+                break
+            if z3.is_quantifier(h) and h.is_forall() and h.num_vars() == 1 and h.var_sort(0) == z3.IntSort():
+                for t in terms2[:6]:
+                    extra.append(z3.substitute_vars(h.body(), t))
     extra.extend(_nth_concat_lemmas(extra))
     return extra, goal2
